@@ -47,7 +47,10 @@ def col_array(col):
     if k == "onoff":
         return np.array(vals, dtype=bool)
     if k == "datetime":
-        return pd.Series(pd.to_datetime(vals) if vals else pd.to_datetime([]))
+        ser = pd.Series(pd.to_datetime(vals) if vals else pd.to_datetime([]))
+        if col.get("res"):
+            ser = ser.astype(f"datetime64[{col['res']}]")      # storage resolution (pandas 3 default: us)
+        return ser
     if k == "int":
         return np.array(vals, dtype=np.int64)
     return np.array(vals, dtype=float)
@@ -137,7 +140,9 @@ def same_table(a, b, flag=True):
         return False
     if [(c["name"], c["unit"]) for c in a["cols"]] != [(c["name"], c["unit"]) for c in b["cols"]]:
         return False
-    return all(x["values"] == y["values"] for x, y in zip(a["cols"], b["cols"]))
+    # numbers compare by value: -0.0 == 0.0 (a workbook stores -0.0 as 0)
+    z = lambda vs: [["n", 0] if v == ["n", 0x8000000000000000] else v for v in vs]
+    return all(z(x["values"]) == z(y["values"]) for x, y in zip(a["cols"], b["cols"]))
 
 
 # ---- generators ---------------------------------------------------------------------------------
@@ -211,7 +216,10 @@ def gen_col(rng, kind, nrows, sep, first_col=False, name=None, odd=True, excel=F
         vals = [gen_float(rng) for _ in range(nrows)]
         if first_col:
             vals = [v if v["f"] != "nan" else {"f": (1.5).hex()} for v in vals]
-    return {"name": name or gen_name(rng), "unit": unit, "kind": kind, "values": vals}
+    col = {"name": name or gen_name(rng), "unit": unit, "kind": kind, "values": vals}
+    if kind == "datetime" and (sum(map(ord, col["name"])) + nrows) % 3 == 0:
+        col["res"] = "ns"          # a third of the datetime columns are stored at nanosecond resolution
+    return col
 
 
 KINDS = ["text", "onoff", "datetime", "float", "int"]
